@@ -22,3 +22,11 @@ Check c07_capacity : forall n, n <= 2 ^ 64 -> n <= npow2 n.
 Check c07_ends_only_on : forall now s,
   cs_registered s = true -> cs_registered (cleanup_csub now s) = false ->
   cs_open s = false \/ expired (cs_perms s) now = true.
+From KD Require Model.Api.
+Check c07_v2_subscribe_is_core : forall st p l buf st' h,
+  Api.v2_subscribe st p l buf = (st', inl h) ->
+  exists ids, Api.v2_resolve_all (st_db st) l = inl ids /\
+              subscribe st p (map (fun id => (id, Api.dp_only)) (Api.nodup_z ids)) (Some buf) = (st', inl h).
+Check c07_refused_handler_subscription_no_effect : forall st p,
+  (forall path fl st' c, Api.v1_subscribe st p path fl = (st', inr c) -> st' = st) /\
+  (forall l buf st' c, Api.v2_subscribe st p l buf = (st', inr c) -> st' = st).
